@@ -82,7 +82,8 @@ def run_lockstep(pid, tier, slices=None, write_evidence=True):
             continue
         for cfg in sl['cfgs']:
             pairs.add((sl['zoo'], cfg))
-    vbuild.build_many(sorted(pairs))
+    built = vbuild.build_many(sorted(pairs))
+    vbuild.degraded_caps(exe for key, exe in sorted(built.items()))
     rdir = os.path.join(vbuild.EVID, 'replays')
     os.makedirs(rdir, exist_ok=True)
     import glob
